@@ -118,7 +118,7 @@ def q(s):
 
 
 PLACEMENTS = ['const', 'literal', 'left', 'concat', 'if', 'sumif', 'countifs', 'countifs_op', 'countifs_amp', 'sumifs', 'averageifs', 'pattern',
-              'pattern_then_literal', 'search', 'whole_formula']
+              'pattern_then_literal', 'search', 'whole_formula', 'crit_amp_cell', 'crit_op_amp_cell', 'crit_amp_literal', 'crit_amp_number']
 
 
 def place(rng, s, how):
@@ -153,6 +153,15 @@ def place(rng, s, how):
         return f'=COUNTIFS(A1:A3,{q("*" + s)})&{q(s)}&{q("*")}', None
     if how == 'search':
         return f'=SEARCH({q("?" + s)},{q("x" + s)})', None
+    if how == 'crit_amp_cell':
+        # "text"&expression criteria: the criterion text is put together when the cell is evaluated
+        return f'=COUNTIFS(A1:A3,{q(s)}&B1)', None
+    if how == 'crit_op_amp_cell':
+        return f'=SUMIF(A1:A3,{q(rng.choice([">", "<>", "=", "<=", ""]) + s)}&B2,B1:B3)', None
+    if how == 'crit_amp_literal':
+        return f'=SUMIFS(B1:B3,A1:A3,{q(s)}&{q("z" + s)})', None
+    if how == 'crit_amp_number':
+        return f'=AVERAGEIFS(B1:B3,A1:A3,{q(s)}&1,A1:A3,{q("<>" + s)}&A1)', None
     if how == 'whole_formula':
         # the text itself is the formula: a pattern literal, arithmetic on calls, a closing literal
         return '="*"+' + s.replace("'", '"') + '+"*"', None
